@@ -676,9 +676,46 @@ def run(ctx, big=False):
 
 
 def correspondence(ctx, res, trace_records):
-    """HOOK for the model correspondence (integrator); records as in props.c05.trace_record, with block markers in
-    the programs (begin_block / end_block / raise_in_block records carry their own events: BEGIN, COMMIT/ROLLBACK)."""
-    return
+    """Trace correspondence with the stage automaton of coq/model/ConcTrace.v (which simulates the micro-step machine):
+    a whole outermost block -- BEGIN of begin_block, the statements of the inner calls, their early file removals,
+    COMMIT / ROLLBACK of the closing record -- is ONE writing call of the machine whose body is the composition of the
+    inner calls (`accepts true`: removals before the commit decision allowed); every call outside a block is an
+    ordinary call (`accepts false`).  Plus the lock discipline the machine proves, on the merged log."""
+    import tracecorr
+    traces = []
+    for ri, rec in enumerate(trace_records):
+        if rec.get('kind', 'cache') != 'cache':
+            continue
+        for recs in rec['calls']:
+            block = None
+            for c in recs:
+                if c.get('skipped') or 'events' not in c:
+                    continue
+                op = c.get('op')
+                if block is None and op == 'begin_block' and c.get('depth', 0) == 0 and c.get('exc') is None:
+                    block = {'events': list(c['events']), 'first': c}
+                    continue
+                if block is not None:
+                    block['events'] += c['events']
+                    if op in ('end_block', 'raise_in_block') and c.get('depth', 0) == 0:
+                        tags = tracecorr.tags_from_shorts(block['events'])
+                        traces.append(((ri, c.get('client'), block['first'].get('index'), 'block', block['events']), tags, True))
+                        block = None
+                    continue
+                if op in tracecorr.SKIP_OPS or op in concdrv.BLOCK_OPS or op in getattr(concdrv, 'ITER_OPS', ()):
+                    continue
+                tags = tracecorr.tags_from_shorts(c['events'], timed_out=(c.get('exc') == 'Timeout'))
+                traces.append(((ri, c.get('client'), c.get('index'), op, c['events']), tags, False))
+        for prob in tracecorr.lock_discipline(rec['log'], rec['calls'])[:1]:
+            res.disagreements.append(fw.Violation('lock_discipline', prob, {'programs': rec['programs'], 'schedule': rec['schedule_used'][:200],
+                                                                           'mode': rec['mode']}, 'correspondence'))
+    bad, errors = tracecorr.check_traces('c06tr', traces)
+    for e in errors:
+        res.disagreements.append(fw.Violation('model-eval', 'stage automaton evaluation failed: ' + e[-300:], {}, 'correspondence'))
+    res.traces_validated += len(traces) - len(bad)
+    for t in bad[:3]:
+        res.disagreements.append(fw.Violation('stage_order', 'the event sequence of %s is not a path of the stage machine: %s' % (t[0][3], t[0][4]),
+                                              {'record': t[0][0], 'client': t[0][1], 'call': t[0][2], 'events': t[0][4], 'tags': t[1]}, 'correspondence'))
 
 
 def search(ctx, broken):
